@@ -134,6 +134,7 @@ func (c *Ctx) ruleWhoMayCall(rule, what string, p sitePred, allowed []string, fl
 
 func c03(c *Ctx) {
 	c03HashTreeComparedAtOpen(c, "C03.8/hash-tree-leaves-compared-with-the-chain-at-open")
+	c17InterruptedCreation(c, "C03.9/interrupted-file-creation-is-tolerated")
 	c03RecoveredValues(c, "C03.7/recovered-precommitted-txs-have-their-values")
 	// ---- C03.1 store commit ordering -------------------------------------------------------
 	r := "C03.1/store-sync-order"
